@@ -27,6 +27,21 @@ namespace mfuse
             arc.ArchiveUInt32(threshold32);
             arc.ArchiveUInt32(count32);
 
+            // do not divide by, or allocate on the say-so of, a damaged header
+            const size_t remaining = arc.GetRemainingSize();
+            if (tableLength32 == 0 || count32 > remaining)
+            {
+                // no bucket to hash into / more entries than bytes left
+                throw ArchiveErrors::ReadStreamFail();
+            }
+            if (tableLength32 > remaining)
+            {
+                // a mostly empty (or damaged) table: size it by its entries instead of allocating
+                // on the say-so of the archive; the bucket count is not part of the set's content
+                tableLength32 = count32 > 1 ? count32 : 1;
+                threshold32 = tableLength32;
+            }
+
             tableLength = tableLength32;
             threshold = threshold32;
             count = count32;
